@@ -7,7 +7,7 @@
    api <meth> <path> <hdr|!> <user.pass|!> <jp> <jd> <leader> <pw> <lastproc> {<id>.<auth>.<alive>.<lpm>}*
         jp = <data>.<cmid> | !  (json oracle for the POST body), jd = <quit> | ! (DELETE body)
                                                         ->  api class=<c> status=<n|*> grew=<n|*> h=<handler> sid=<n|->
-   post <leader> <op>*   C:<id>:<auth>  P:<sid>:<jp>:<deaths>  X:<sid>:<cmid>  D:<sid>:<jd>:<deaths>  K:<sid>:<deaths>  S
+   post <leader> <op>*   C:<id>:<auth>  P:<sid>:<jp>:<deaths>  Q:<sid>:<cmid>:<data>:<deaths>  X:<sid>:<cmid>  D:<sid>:<jd>:<deaths>  K:<sid>:<deaths>  S
                                                         ->  post <obs>* E:<entries>:<id.alive.lpm,...>
    cfg <rev> <base> <banned> <op>*   F:<hdr|!>:<body>:<tp>  B:<addr>:<reason>  O  S
         tp = <base>/<banned> | !      banned = <addr>=<reason>,... | -
@@ -144,6 +144,14 @@ Definition post_op (acc : sys * list string) (tok : string) : sys * list string 
     let e := mkEntry EMod 0 sid (N_of (nth_s a 2)) EmptyString 0 in
     let s' := step (fun _ => None) id_restore s (EvApply e (mkOracle [] true)) in
     (s', snoc outs ("X:" ++ dec_of_N (last_post (s_node s') sid) ++ ":" ++ b01 (is_live (s_node s') sid)))
+  else if String.eqb k "Q" then
+    (* a raw IRCFromClient entry committed by other means (a second copy proposed by a lagging handler) *)
+    let sid := N_of (nth_s a 1) in
+    let e := mkEntry EIrc (next_index s) sid (N_of (nth_s a 2)) (unhex_field (nth_s a 3)) 0 in
+    let o := mkOracle (parse_deaths (nth_s a 4)) true in
+    let res := if processes st e then "proc" else "skip" in
+    let s' := step (fun _ => None) id_restore s (EvApply e o) in
+    (s', snoc outs ("Q:" ++ res ++ ":" ++ dec_of_N (last_post (s_node s') sid) ++ ":" ++ b01 (is_live (s_node s') sid)))
   else if String.eqb k "D" then
     let sid := N_of (nth_s a 1) in
     let o := mkOracle (parse_deaths (nth_s a 3)) true in
@@ -166,7 +174,7 @@ Definition post_op (acc : sys * list string) (tok : string) : sys * list string 
 
 Definition run_post (f : list string) : string :=
   let leader := String.eqb (nth_field f 1) "1" in
-  let s0 := mkSys [] (mkState [] 0 EmptyString leader) in
+  let s0 := mkSys [] (mkState [] 0 EmptyString leader) [] in
   let '(s, outs) := fold_left post_op (skipn 2 f) (s0, []) in
   sjoin " " ("post" :: snoc outs ("E:" ++ dec_of_nat (List.length (s_log s)) ++ ":" ++ show_markers (s_node s))).
 
